@@ -264,6 +264,21 @@ func (r *renderer) annotationForm(n *Node, level int, force int) {
 				r.sb.WriteString(strings.Repeat(r.ind, level+2) + "]")
 				continue
 			}
+			if ml >= 2 && rule.Raw == "" && ((rule.Name == "allOf" && len(rule.List) > 1) || rule.Name == "or") && r.on(true) {
+				// an array value spread over lines, one item per line
+				in := strings.Repeat(r.ind, level+3)
+				r.sb.WriteString("[" + r.nl)
+				items := ruleItemTexts(rule, r.on(r.st.QuoteNames))
+				for j, it := range items {
+					r.sb.WriteString(in + it)
+					if j < len(items)-1 {
+						r.sb.WriteString(",")
+					}
+					r.sb.WriteString(r.nl)
+				}
+				r.sb.WriteString(strings.Repeat(r.ind, level+2) + "]")
+				continue
+			}
 			r.sb.WriteString(RuleValueText(rule, r.on(r.st.QuoteNames)))
 		}
 		if r.on(r.st.TrailingComma) {
@@ -318,6 +333,21 @@ func RuleValueText(rule *Rule, quoteNames bool) string {
 		}
 		return "[" + strings.Join(q, ", ") + "]"
 	case "or":
+		return "[" + strings.Join(ruleItemTexts(rule, quoteNames), ", ") + "]"
+	}
+	return rule.Str
+}
+
+// ruleItemTexts: the items of an array-valued rule (allOf with several names, or) as written.
+func ruleItemTexts(rule *Rule, quoteNames bool) []string {
+	switch rule.Name {
+	case "allOf":
+		q := make([]string, len(rule.List))
+		for i, s := range rule.List {
+			q[i] = Quote(s)
+		}
+		return q
+	case "or":
 		parts := make([]string, len(rule.Or))
 		for i, it := range rule.Or {
 			if it.Rules == nil {
@@ -334,9 +364,9 @@ func RuleValueText(rule *Rule, quoteNames bool) string {
 			}
 			parts[i] = "{" + strings.Join(rs, ", ") + "}"
 		}
-		return "[" + strings.Join(parts, ", ") + "]"
+		return parts
 	}
-	return rule.Str
+	return nil
 }
 
 // Canonical renders in the house style.
